@@ -10,3 +10,6 @@ import TradingVerif.Props.C01
 #print axioms TV.mark1_inv
 #print axioms TV.runOps_inv
 #print axioms TV.nlv_identity_open
+#print axioms TV.stepOp_ex
+#print axioms TV.shared_exchange_stays_shared
+#print axioms TV.two_accounts_isolated
